@@ -28,6 +28,12 @@ func (w *World) evalStringTest(cond, subject ssa.Value, s string, depth int) (bo
 			return !b, ok
 		}
 	case *ssa.BinOp:
+		if hay, sub, pol, ok := containsTest(x); ok {
+			if k, isK := strConst(sub); isK && isSubj(hay) {
+				return strings.Contains(s, k) == pol, true
+			}
+			return false, false
+		}
 		if x.Op != token.EQL && x.Op != token.NEQ {
 			return false, false
 		}
@@ -198,4 +204,34 @@ func checkCertTypes(c *Ctx, rule string) {
 	}
 	c.Floor(rule, n, 1, "type tests in the certificate cast")
 	c.Floor(rule, len(algos), 8, "certificate type names in x/crypto/ssh")
+}
+
+// containsTest: the boolean v says (pol) or denies (!pol) that hay contains sub - strings.Contains(hay, sub), or a
+// comparison of strings.Index(hay, sub) with 0 / -1 that means the same.
+func containsTest(v ssa.Value) (hay, sub ssa.Value, pol, ok bool) {
+	switch x := throughCell(strip(v)).(type) {
+	case *ssa.Call:
+		if calleeName(x) == "strings.Contains" && len(x.Call.Args) == 2 {
+			return x.Call.Args[0], x.Call.Args[1], true, true
+		}
+	case *ssa.BinOp:
+		a, b, op := x.X, x.Y, x.Op
+		if _, isK := intConst(a); isK {
+			a, b = b, a
+			op = map[token.Token]token.Token{token.LSS: token.GTR, token.GTR: token.LSS, token.LEQ: token.GEQ, token.GEQ: token.LEQ, token.EQL: token.EQL, token.NEQ: token.NEQ}[op]
+		}
+		k, isK := intConst(b)
+		cv, isCall := throughCell(strip(a)).(*ssa.Call)
+		if !isK || !isCall || calleeName(cv) != "strings.Index" || len(cv.Call.Args) != 2 {
+			return nil, nil, false, false
+		}
+		hay, sub = cv.Call.Args[0], cv.Call.Args[1]
+		switch {
+		case (op == token.GEQ && k == 0) || (op == token.GTR && k == -1) || (op == token.NEQ && k == -1):
+			return hay, sub, true, true
+		case (op == token.LSS && k == 0) || (op == token.LEQ && k == -1) || (op == token.EQL && k == -1):
+			return hay, sub, false, true
+		}
+	}
+	return nil, nil, false, false
 }
